@@ -4,6 +4,8 @@ PROP = dict(
         assumptions=[
             "a declared sort key means: the input is sorted by the comparator the lake uses for pool keys (zbuf.NewComparatorNullsMax: nulls and missing keys last for asc, first for desc); the harness really sorts the input that way",
             "order-sensitive operators (head, tail, uniq, fuse, key-less sort, collect/any/...) are only generated on streams with a defined order (after `sort typeof(this), this` when needed); fork legs are never nested and uniq/fuse/lateral over stay out of fork legs because the runtime deadlocks on such shapes with or without the optimizer",
+            "optimized plans that hold a summarize with both an input sort direction and a group limit are not executed (they can crash the process: open finding C07-streaming-summarize-limit-crash); counted under skipped",
+            "a deadlock is a statement about goroutine states (every flowgraph goroutine blocked on a channel operation, stacks unchanged over five observations), not a time limit; a one-sided deadlock outside the known join class must repeat three times to count",
             "lake (`from pool`) inputs are covered by a separate test added later",
         ],
         level_text="Property-based differential test: the plan exactly as analysed is the reference for the optimized plan of the same compiler.Job; programs and inputs are sampled by rapid from a typed grammar and from the repo's own program corpus.",
